@@ -32,3 +32,11 @@ pub assume_specification<T: Clone>[ <T as std::borrow::ToOwned>::to_owned ](s: &
     ensures
         cloned::<T>(*s, r),
 ;
+
+// A-MEM-TAKE  `std::mem::take(dest)` returns the old value and leaves `T::default()` behind (std documentation);
+// the value left behind is specified through the contract of the type's `Default::default`.
+pub assume_specification<T: std::default::Default>[ std::mem::take ](dest: &mut T) -> (r: T)
+    ensures
+        r == *old(dest),
+        call_ensures(T::default, (), *final(dest)),
+;
